@@ -23,6 +23,8 @@ CLAIMED = {
          "Exploration: tens of thousands of definitions per run, every documented defect class and pairs of them (found F17, F18)."),
  'C11': ("twin definition: printed description vs read_grammar of the denoted grammar, compared on definition result and parse outcomes; mutated texts must fail cleanly with a line number inside the text", "6.C11",
          "Exploration over lexical variation of the documented syntax (found F05, F06, F07, F08, F10)."),
+ 'C12': ("coverage-guided fuzzing (two libFuzzer targets with semantic oracles inside, ASan+UBSan, seed corpus from the repository's test descriptions and empty corpus) plus a rapidcheck robustness property on noisy inputs; hook H3 bounds the recovery search", "6.C12",
+         "Exploration: ~10^5-10^6 executions per quick run (found F04, F05, F06, F22b, F27, F28, F39). The unbounded recovery search is a listed finding; bounded time is decided only as 'no reproducible hang or explosion within generous limits on small inputs'."),
  'C13': ("tracking tree allocator as model of the caller's heap: per-parse live-block sets, reachability walk, re-walk after yaep_free_grammar, yaep_free_tree accounting, terminal-callback count, library leak accounting through the redirected malloc", "6.C13",
          "Exploration with 1-3 live trees per object, cost pruning, recovery, three allocator modes (found F15, F25, F29)."),
  'C14': ("stateful (model-based) testing: generated API histories over 3 object slots; every call compared with a pure model and with the same call on a fresh object in a fresh process; ASan; library memory accounting at the end", "6.C14",
@@ -43,7 +45,7 @@ m={
  "version":1,
  "setup_cmd":"tools/setup.sh",
  "hooks":{"guard":"YAEP_VERIF","enable":"tools/build_lib.sh compiles /repo/src/*.c with -DYAEP_VERIF (observation-only hooks inside #ifdef YAEP_VERIF; a harness-set limit can end an exploding recovery search through the ordinary YAEP_NO_MEMORY exit)","baseline_off_cmd":"tools/baseline_off.sh","source_commits":hooks(),"add_only":True},
- "engines":[{"name":"pbt","path":"src/pbt_main.cpp","serves_properties":sorted(CLAIMED),"kind_free_text":"rapidcheck property-based driver: choice-sequence generators (all randomness from rapidcheck, so shrinking and seeds work), fork-server isolation of every case, bounded shrinking, plain-text replay files, 3x replay confirmation"}],
+ "engines":[{"name":"libfuzzer","path":"src/fuzz","serves_properties":["C12"],"kind_free_text":"libFuzzer targets fuzz_desc and fuzz_api built by tools/build_fuzz.sh, run by ./check C12"},{"name":"pbt","path":"src/pbt_main.cpp","serves_properties":sorted(CLAIMED),"kind_free_text":"rapidcheck property-based driver: choice-sequence generators (all randomness from rapidcheck, so shrinking and seeds work), fork-server isolation of every case, bounded shrinking, plain-text replay files, 3x replay confirmation"}],
  "checks":[],
  "not_applicable":[],
  "notes":"see DESIGN.md; known findings in known_findings.json; ./check <ID> <quick|thorough>, ./check --replay <file>"
